@@ -3,7 +3,10 @@
 //! cases.json: JSON array of case objects; obs.json: JSON array of observations (same order).
 mod util;
 mod c03;
+mod c11;
 mod c12;
+mod c13;
+mod c17;
 mod eng;
 mod stack;
 
@@ -50,6 +53,9 @@ fn main() {
     "c03" => cases.iter().map(c03::run_case).collect(),
     "eng" => cases.iter().map(eng::run_case).collect(),
     "c12" => cases.iter().map(c12::run_case).collect(),
+    "c11" => c11::run_all(cases),
+    "c13" => cases.iter().map(c13::run_case).collect(),
+    "c17" => c17::run_all(cases),
     "stack" => run_parallel(cases, stack::run_case, 8),
     other => {
       eprintln!("unknown subcommand {other}");
